@@ -250,9 +250,14 @@ def rt_cases(draw):
     n = draw(st.integers(1, 6))
     t = draw(st.integers(2, 10))
     vals = [[round(draw(st.floats(-1, 1, allow_nan=False)) * draw(_mag), draw(st.integers(0, 8))) for _ in range(t)] for _ in range(n)]
-    kind = draw(st.sampled_from(["none", "str", "str_mixed", "int0", "int1", "float"]))
+    kind = draw(st.sampled_from(["none", "str", "str_mixed", "int0", "int1", "float", "str_punct"]))
     if kind == "none":
         labels = None
+    elif kind == "str_punct":
+        # any token without white space and without the format's own separators / missing mark
+        pool = draw(st.lists(st.text(alphabet="abXY019#@%&-+._/|!$*()=~^;", min_size=1, max_size=5), min_size=1, max_size=3,
+                             unique_by=lambda v: v.lower()))
+        labels = [pool[draw(st.integers(0, len(pool) - 1))] for _ in range(n)]
     else:
         pool = {"str": ["a", "b", "zz"], "str_mixed": ["Up", "DOWN", "left"], "int0": [0, 1, 2], "int1": [1, 2, 3],
                 "float": [0.0, 1.5, 2.0]}[kind]
